@@ -484,6 +484,20 @@ class CounterInduction(ast.NodeTransformer):
         return out
 
 
+class ToAug(ast.NodeTransformer):
+    """`x = x + e` -> `x += e` (plain names; one spelling of an update)"""
+
+    def visit_Assign(self, node):
+        if len(node.targets) == 1 and isinstance(node.targets[0], ast.Name) and isinstance(node.value, ast.BinOp) and \
+                isinstance(node.value.left, ast.Name) and node.value.left.id == node.targets[0].id and \
+                not any(isinstance(n, ast.Name) and n.id == node.targets[0].id for n in ast.walk(node.value.right)):
+            return ast.copy_location(ast.AugAssign(target=ast.Name(id=node.targets[0].id, ctx=ast.Store()), op=node.value.op, value=node.value.right), node)
+        return node
+
+    def visit_Lambda(self, node):
+        return node
+
+
 class LambdaInline(ast.NodeTransformer):
     """`p = lambda t: E` (bound once, every use a direct call `p(a)` with plain arguments)  ->  E[t := a] at the calls"""
 
@@ -553,6 +567,7 @@ def simplify_tree(tree):
     consts = {k: v for k, v in consts.items() if k.lstrip('.') not in bound_in_fns or k.startswith('.')}
     tree = TableUnroll(consts).visit(tree)
     tree = LambdaInline().visit(tree)
+    tree = ToAug().visit(tree)
     tree = CounterInduction().visit(tree)
     tree = FlagThread().visit(tree)
     tree = _DoubleNot().visit(tree)
